@@ -315,9 +315,15 @@ def main():
         try:
             import canary
             cres = canary.run_for(prop=pid)
-            canary_info = dict(run=len(cres), killed=sum(1 for c in cres if c['status'] == 'killed'),
-                               survived=[c['name'] for c in cres if c['status'] == 'SURVIVED'],
-                               undecided=[c['name'] for c in cres if c['status'] not in ('killed', 'SURVIVED')])
+            eq = getattr(canary, 'CANARY_EXPECT_NOT_KILLED', set())
+            real = [c for c in cres if c['name'] not in eq]
+            eqs = [c for c in cres if c['name'] in eq]
+            canary_info = dict(run=len(real), killed=sum(1 for c in real if c['status'] == 'killed'),
+                               survived=[c['name'] for c in real if c['status'] == 'SURVIVED'],
+                               undecided=[c['name'] for c in real if c['status'] not in ('killed', 'SURVIVED')],
+                               # semantics-preserving edits: exit 1 on one of them is a false alarm of the check
+                               equivalent_edits=dict(run=len(eqs), not_alarmed=[c['name'] for c in eqs if c['status'] != 'killed'],
+                                                     false_alarms=[c['name'] for c in eqs if c['status'] == 'killed']))
         except Exception as e:
             canary_info = dict(error=str(e))
         repro_info = run_reproductions(pid)
